@@ -66,10 +66,23 @@ Section Enc.
   Proof. reflexivity. Qed.
 
   (* ================= errors ================================================================================= *)
-  Hypothesis Hq : q_list_dict q = false.
   Hypothesis Hcenc_err : forall ck v e, cenc ck v = Err e -> catchable e = true.
 
+  (* either the finding is repaired, or the template has no list node (the only place it can be reached) *)
+  Definition okq (t : tmpl) : Prop := q_list_dict q = false \/ nolist t = true.
   Definition errs_ok (t : tmpl) : Prop := forall v e, enc t v = Err e -> catchable e = true.
+
+  Lemma okq_forall : forall (l : list tmpl), (q_list_dict q = false \/ forallb nolist l = true) -> Forall okq l.
+  Proof.
+    intros l [H|H]; apply Forall_forall; intros x Hx; [left; auto | right]. rewrite forallb_forall in H; auto.
+  Qed.
+  Lemma okq_forall_kvs : forall (l : list (str * tmpl)),
+    (q_list_dict q = false \/ forallb (fun kv => nolist (snd kv)) l = true) -> Forall (fun kv => okq (snd kv)) l.
+  Proof.
+    intros l [H|H]; apply Forall_forall; intros x Hx; [left; auto | right]. rewrite forallb_forall in H; auto.
+  Qed.
+  Lemma Forall_mp : forall A (P Q : A -> Prop) l, Forall (fun x => P x -> Q x) l -> Forall P l -> Forall Q l.
+  Proof. induction 1; intros HP; inv HP; constructor; auto. Qed.
 
   Lemma cat2_err : forall X Y (f : X -> Y -> result (list pdna)) l1,
     Forall (fun x => forall y e, f x y = Err e -> catchable e = true) l1 ->
@@ -122,27 +135,33 @@ Section Enc.
     eapply cat2_err; eauto.
   Qed.
 
-  Lemma enc_errs : forall t, errs_ok t.
+  Lemma enc_errs : forall t, okq t -> errs_ok t.
   Proof.
-    induction t using tmpl_ind'; intros v e H0.
+    induction t using tmpl_ind'; intros Hok v e H0.
     - rewrite enc_leaf in H0. destruct v; try (inv H0; reflexivity). destruct (leaf_eqb l l0); inv H0; reflexivity.
-    - rewrite enc_tdict in H0. destruct v; try (inv H0; reflexivity).
+    - assert (H' : Forall (fun kv => errs_ok (snd kv)) kvs) by (eapply Forall_mp; [exact H | apply okq_forall_kvs; exact Hok]).
+      rewrite enc_tdict in H0. destruct v; try (inv H0; reflexivity).
       destruct (_ && _); [|inv H0; reflexivity].
       eapply enc_dict_err; eauto. apply with_key_err; auto.
-    - rewrite enc_tobj in H0. destruct v; try (inv H0; reflexivity).
+    - assert (H' : Forall (fun kv => errs_ok (snd kv)) kvs) by (eapply Forall_mp; [exact H | apply okq_forall_kvs; exact Hok]).
+      rewrite enc_tobj in H0. destruct v; try (inv H0; reflexivity).
       destruct (_ && _); [|inv H0; reflexivity].
-      eapply cat2_err; [|exact H0]. eapply Forall_impl; [|exact H]. intros kv Hkv y e0 He0. eapply Hkv; eauto.
-    - rewrite enc_tlist in H0. destruct v; try (inv H0; reflexivity).
+      eapply cat2_err; [|exact H0]. eapply Forall_impl; [|exact H']. intros kv Hkv y e0 He0. eapply Hkv; eauto.
+    - destruct Hok as [Hq|Hn]; [|discriminate Hn].
+      assert (H' : Forall errs_ok ts) by (eapply Forall_mp; [exact H | apply okq_forall; left; exact Hq]).
+      rewrite enc_tlist in H0. destruct v; try (inv H0; reflexivity).
       + unfold list_vs_dict in H0. rewrite Hq in H0. inv H0; reflexivity.
       + eapply lst_err; eauto.
-    - rewrite enc_oneof in H0. destruct (w (TOneOf cands a)).
+    - assert (H' : Forall errs_ok cands) by (eapply Forall_mp; [exact H | apply okq_forall; exact Hok]).
+      rewrite enc_oneof in H0. destruct (w (TOneOf cands a)).
       + destruct (first_match _ 0 cands) eqn:E; inv H0. eapply first_match_err; eauto.
       + destruct v; try (inv H0; reflexivity). destruct (attrs_eqb a a0); [|inv H0; reflexivity]. eapply lst_err; eauto.
-    - rewrite enc_manyof in H0. destruct (w (TManyOf k cands d s a)).
+    - assert (H' : Forall errs_ok cands) by (eapply Forall_mp; [exact H | apply okq_forall; exact Hok]).
+      rewrite enc_manyof in H0. destruct (w (TManyOf k cands d s a)).
       + destruct v; try (inv H0; reflexivity). destruct (length ts =? k); [|inv H0; reflexivity].
         destruct (map_res _ ts) eqn:E.
         * destruct (constraint_ok d s (map fst a0)); inv H0; reflexivity.
-        * inv H0. eapply map_res_err; [|exact E]. intros x e0 He0. eapply (first_match_err cands H x 0 e0). exact He0.
+        * inv H0. eapply map_res_err; [|exact E]. intros x e0 He0. eapply (first_match_err cands H' x 0 e0). exact He0.
       + destruct v; try (inv H0; reflexivity). destruct (_ && _); [|inv H0; reflexivity].
         destruct (lst cands cands0) eqn:E.
         * destruct (_ && _); inv H0; reflexivity.
@@ -154,6 +173,7 @@ Section Enc.
       + destruct (cenc ck v) eqn:E; inv H0. eauto.
       + destruct v; try (inv H0; reflexivity). destruct (_ && _); inv H0; reflexivity.
   Qed.
+
   (* ================= soundness: what encode accepts is (==) a decodable value ================================ *)
   Hypothesis Hcenc_sound : forall ck v s, cenc ck v = Ok s -> exists v', cdec ck s = Ok v' /\ veq v' v = true.
 
@@ -317,7 +337,7 @@ Section Enc.
       exists ds'; split; [intros p; simpl; apply (Hv (fun k => p ++ [KName k]))|]. intros rest. destruct (Hd rest) as (l' & Hl & Hq').
       exists (TObj c l'). rewrite sdec_obj, Hl. split; auto. simpl. rewrite Cc, Hq'; auto.
     - (* list *) rewrite enc_tlist in H0. apply all_P_Forall in Hwf. destruct v; try discriminate.
-      + unfold list_vs_dict in H0. rewrite Hq in H0. discriminate.
+      + unfold list_vs_dict in H0. destruct (q_list_dict q); [destruct kvs|]; discriminate.
       + unfold lst in H0. destruct (length ts =? length ts0); try discriminate.
         destruct (sound_cat2 ts H Hwf _ _ H0) as (ds' & Hv & Hd).
         exists ds'; split; [intros p; simpl; apply (Hv (fun i => p ++ [KIdx i]) 0)|]. intros rest. destruct (Hd rest) as (l' & Hl & Hq').
@@ -369,7 +389,7 @@ Section Enc.
   (* ================= encode inverts decode on distinguishable templates ====================================== *)
   Hypothesis Hcenc_dec : forall ck s v, cdec ck s = Ok v -> cenc ck v = Ok s.
 
-  Definition inv_ok (t : tmpl) : Prop := wf_t t -> distinguishable cdec w t -> forall p ds1 rest v r,
+  Definition inv_ok (t : tmpl) : Prop := wf_t t -> okq t -> distinguishable cdec w t -> forall p ds1 rest v r,
     forallb2 valid_p (pts w p t) ds1 = true -> sdec t (ds1 ++ rest) = Ok (v, r) -> r = rest /\ enc t v = Ok ds1.
 
   Lemma leaf_eqb_refl : forall l, leaf_eqb l l = true.
@@ -379,39 +399,39 @@ Section Enc.
     destruct a as [n h]; unfold attrs_eqb; simpl. destruct n, h; simpl; rewrite ?str_eqb_refl, ?Z.eqb_refl; auto.
   Qed.
 
-  Lemma inv_list : forall ts, Forall inv_ok ts -> Forall wf_t ts -> Forall (distinguishable cdec w) ts ->
+  Lemma inv_list : forall ts, Forall inv_ok ts -> Forall wf_t ts -> Forall okq ts -> Forall (distinguishable cdec w) ts ->
     forall (pf : nat -> list ikey) n ds1 rest vs r,
     forallb2 valid_p (flat_mapi (fun i x => pts w (pf i) x) n ts) ds1 = true ->
     trav_list sdec ts (ds1 ++ rest) = Ok (vs, r) -> r = rest /\ cat2 enc ts vs = Ok ds1 /\ length ts = length vs.
   Proof.
-    induction 1 as [|t ts Ht _ IH]; intros Hwf Hdi pf n ds1 rest vs r Hv Hd.
+    induction 1 as [|t ts Ht _ IH]; intros Hwf Hok Hdi pf n ds1 rest vs r Hv Hd.
     - destruct ds1; [|discriminate Hv]. simpl in Hd. inv Hd. auto.
-    - apply Forall_cons_iff in Hwf as [Hw1 Hw2]. apply Forall_cons_iff in Hdi as [Hd1 Hd2].
+    - apply Forall_cons_iff in Hwf as [Hw1 Hw2]. apply Forall_cons_iff in Hok as [Ho1 Ho2]. apply Forall_cons_iff in Hdi as [Hd1 Hd2].
       rewrite flat_mapi_cons in Hv. apply forallb2_app_l in Hv as (d1 & d2 & -> & H1 & H2).
       rewrite <- app_assoc, trav_list_cons in Hd.
       destruct (sdec t (d1 ++ d2 ++ rest)) as [[v1 r1]|] eqn:E1; try discriminate.
-      destruct (Ht Hw1 Hd1 _ _ _ _ _ H1 E1) as [-> He1].
+      destruct (Ht Hw1 Ho1 Hd1 _ _ _ _ _ H1 E1) as [-> He1].
       destruct (trav_list sdec ts (d2 ++ rest)) as [[vs2 r2]|] eqn:E2; try discriminate. inv Hd.
-      destruct (IH Hw2 Hd2 _ _ _ _ _ _ H2 E2) as (-> & He2 & Hl).
+      destruct (IH Hw2 Ho2 Hd2 _ _ _ _ _ _ H2 E2) as (-> & He2 & Hl).
       rewrite cat2_cons, He1, He2. simpl; auto.
   Qed.
 
   Lemma inv_kvs : forall kvs, Forall (fun kv => inv_ok (snd kv)) kvs -> Forall (fun kv => wf_t (snd kv)) kvs ->
-    Forall (fun kv => distinguishable cdec w (snd kv)) kvs ->
+    Forall (fun kv => okq (snd kv)) kvs -> Forall (fun kv => distinguishable cdec w (snd kv)) kvs ->
     forall (pf : str -> list ikey) ds1 rest kvs' r,
     forallb2 valid_p (flat_map (fun kv => pts w (pf (fst kv)) (snd kv)) kvs) ds1 = true ->
     trav_kvs sdec kvs (ds1 ++ rest) = Ok (kvs', r) ->
     r = rest /\ cat2 (fun kv xv => enc (snd kv) (snd xv)) kvs kvs' = Ok ds1 /\ map fst kvs' = map fst kvs.
   Proof.
-    induction 1 as [|[k t] kvs Ht _ IH]; intros Hwf Hdi pf ds1 rest kvs' r Hv Hd.
+    induction 1 as [|[k t] kvs Ht _ IH]; intros Hwf Hok Hdi pf ds1 rest kvs' r Hv Hd.
     - destruct ds1; [|discriminate Hv]. simpl in Hd. inv Hd. auto.
-    - apply Forall_cons_iff in Hwf as [Hw1 Hw2]. apply Forall_cons_iff in Hdi as [Hd1 Hd2]. simpl in Ht, Hw1, Hd1.
+    - apply Forall_cons_iff in Hwf as [Hw1 Hw2]. apply Forall_cons_iff in Hok as [Ho1 Ho2]. apply Forall_cons_iff in Hdi as [Hd1 Hd2]. simpl in Ht, Hw1, Ho1, Hd1.
       simpl in Hv. apply forallb2_app_l in Hv as (d1 & d2 & -> & H1 & H2).
       rewrite <- app_assoc, trav_kvs_cons in Hd.
       destruct (sdec t (d1 ++ d2 ++ rest)) as [[v1 r1]|] eqn:E1; try discriminate.
-      destruct (Ht Hw1 Hd1 _ _ _ _ _ H1 E1) as [-> He1].
+      destruct (Ht Hw1 Ho1 Hd1 _ _ _ _ _ H1 E1) as [-> He1].
       destruct (trav_kvs sdec kvs (d2 ++ rest)) as [[vs2 r2]|] eqn:E2; try discriminate. inv Hd.
-      destruct (IH Hw2 Hd2 _ _ _ _ _ H2 E2) as (-> & He2 & Hl).
+      destruct (IH Hw2 Ho2 Hd2 _ _ _ _ _ H2 E2) as (-> & He2 & Hl).
       rewrite cat2_cons. simpl. rewrite He1, He2, Hl. auto.
   Qed.
 
@@ -428,23 +448,24 @@ Section Enc.
 
   (* the dict version: the encoder walks the value's keys and looks the template's entry up *)
   Lemma inv_dict : forall full, NoDup (map fst full) -> forall l, incl l full ->
-    Forall (fun kv => inv_ok (snd kv)) l -> Forall (fun kv => wf_t (snd kv)) l -> Forall (fun kv => distinguishable cdec w (snd kv)) l ->
+    Forall (fun kv => inv_ok (snd kv)) l -> Forall (fun kv => wf_t (snd kv)) l -> Forall (fun kv => okq (snd kv)) l ->
+    Forall (fun kv => distinguishable cdec w (snd kv)) l ->
     forall (pf : str -> list ikey) ds1 rest l' r,
     forallb2 valid_p (flat_map (fun kv => pts w (pf (fst kv)) (snd kv)) l) ds1 = true ->
     trav_kvs sdec l (ds1 ++ rest) = Ok (l', r) ->
     r = rest /\ enc_dict (dict_f full) l' = Ok ds1 /\ map fst l' = map fst l.
   Proof.
-    intros full ND. induction l as [|[k t] l IH]; intros Hincl Hi Hwf Hdi pf ds1 rest l' r Hv Hd.
+    intros full ND. induction l as [|[k t] l IH]; intros Hincl Hi Hwf Hok Hdi pf ds1 rest l' r Hv Hd.
     - destruct ds1; [|discriminate Hv]. simpl in Hd. inv Hd. auto.
-    - apply Forall_cons_iff in Hi as [Hi1 Hi2]. apply Forall_cons_iff in Hwf as [Hw1 Hw2].
-      apply Forall_cons_iff in Hdi as [Hd1 Hd2]. simpl in Hi1, Hw1, Hd1.
+    - apply Forall_cons_iff in Hi as [Hi1 Hi2]. apply Forall_cons_iff in Hwf as [Hw1 Hw2]. apply Forall_cons_iff in Hok as [Ho1 Ho2].
+      apply Forall_cons_iff in Hdi as [Hd1 Hd2]. simpl in Hi1, Hw1, Ho1, Hd1.
       simpl in Hv. apply forallb2_app_l in Hv as (d1 & d2 & -> & H1 & H2).
       rewrite <- app_assoc, trav_kvs_cons in Hd.
       destruct (sdec t (d1 ++ d2 ++ rest)) as [[v1 r1]|] eqn:E1; try discriminate.
-      destruct (Hi1 Hw1 Hd1 _ _ _ _ _ H1 E1) as [-> He1].
+      destruct (Hi1 Hw1 Ho1 Hd1 _ _ _ _ _ H1 E1) as [-> He1].
       destruct (trav_kvs sdec l (d2 ++ rest)) as [[vs2 r2]|] eqn:E2; try discriminate. inv Hd.
       assert (Hincl' : incl l full) by (intros kv Hkv; apply Hincl; right; auto).
-      destruct (IH Hincl' Hi2 Hw2 Hd2 _ _ _ _ _ H2 E2) as (-> & He2 & Hl).
+      destruct (IH Hincl' Hi2 Hw2 Ho2 Hd2 _ _ _ _ _ H2 E2) as (-> & He2 & Hl).
       simpl. unfold dict_f at 1. rewrite with_key_lookup.
       rewrite (lookup_NoDup _ k full t ND) by (apply Hincl; left; auto).
       rewrite He1, He2, Hl. auto.
@@ -465,18 +486,18 @@ Section Enc.
         * intros i ci Hi Hni. apply (Hlt (S i) ci); [lia | exact Hni].
   Qed.
 
-  Lemma inv_choice : forall cands, Forall inv_ok cands -> Forall wf_t cands -> Forall (distinguishable cdec w) cands ->
+  Lemma inv_choice : forall cands, Forall inv_ok cands -> Forall wf_t cands -> Forall okq cands -> Forall (distinguishable cdec w) cands ->
     cand_distinct cdec w cands -> forall cs v,
     with_nth (fun s => valid s (snd cs)) false (map (fun c => Space (pts w [] c)) cands) (fst cs) = true ->
     choice_of cdec w cands cs = Ok v ->
     first_match (fun c' => enc c' v) 0 cands = Ok cs.
   Proof.
-    intros cands Hi Hwf Hdi Hcd [c [sds]] v Hv Hc. simpl in Hv. unfold choice_of in Hc; simpl in Hc.
+    intros cands Hi Hwf Hok Hdi Hcd [c [sds]] v Hv Hc. simpl in Hv. unfold choice_of in Hc; simpl in Hc.
     rewrite with_nth_map, with_nth_nth_error in Hv. rewrite with_nth_nth_error in Hc.
     destruct (nth_error cands c) as [cc|] eqn:En; try discriminate. simpl in Hv.
     destruct (sdec cc sds) as [[v0 r0]|] eqn:Ed; try discriminate.
     assert (Ed' : sdec cc (sds ++ []) = Ok (v0, r0)) by (rewrite app_nil_r; auto).
-    destruct (nth_error_Forall _ _ _ _ _ Hi En (nth_error_Forall _ _ _ _ _ Hwf En) (nth_error_Forall _ _ _ _ _ Hdi En) _ _ _ _ _ Hv Ed') as [-> He].
+    destruct (nth_error_Forall _ _ _ _ _ Hi En (nth_error_Forall _ _ _ _ _ Hwf En) (nth_error_Forall _ _ _ _ _ Hok En) (nth_error_Forall _ _ _ _ _ Hdi En) _ _ _ _ _ Hv Ed') as [-> He].
     simpl in Hc. inv Hc.
     change (Ok (c, SSpace sds)) with (@Ok (nat * sdna) (0 + c, SSpace sds)).
     eapply first_match_at; eauto.
@@ -490,50 +511,51 @@ Section Enc.
         - unfold sdecode. rewrite Hdd. reflexivity.
         - unfold sdecode. rewrite Ed. reflexivity. }
       congruence.
-    - exists e; split; auto. eapply enc_errs; eauto.
+    - exists e; split; auto. eapply (enc_errs ci (nth_error_Forall _ _ _ _ _ Hok Hni)); eauto.
   Qed.
 
-  Lemma inv_choices : forall cands, Forall inv_ok cands -> Forall wf_t cands -> Forall (distinguishable cdec w) cands ->
+  Lemma inv_choices : forall cands, Forall inv_ok cands -> Forall wf_t cands -> Forall okq cands -> Forall (distinguishable cdec w) cands ->
     cand_distinct cdec w cands -> forall cs vs,
     forallb (fun cs0 => with_nth (fun s => valid s (snd cs0)) false (map (fun c => Space (pts w [] c)) cands) (fst cs0)) cs = true ->
     map_res (choice_of cdec w cands) cs = Ok vs ->
     map_res (fun x => first_match (fun c' => enc c' x) 0 cands) vs = Ok cs /\ length vs = length cs.
   Proof.
-    intros cands Hi Hwf Hdi Hcd. induction cs as [|c cs IH]; intros vs Hv Hm.
+    intros cands Hi Hwf Hok Hdi Hcd. induction cs as [|c cs IH]; intros vs Hv Hm.
     - simpl in Hm. inv Hm. auto.
     - simpl in Hv. apply andb_true_iff in Hv as [Hv1 Hv2]. rewrite map_res_cons in Hm.
       destruct (choice_of cdec w cands c) as [v|] eqn:Ec; try discriminate.
       destruct (map_res (choice_of cdec w cands) cs) as [vs'|] eqn:Em; try discriminate. inv Hm.
       destruct (IH _ Hv2 eq_refl) as [Hm' Hl].
-      rewrite map_res_cons, (inv_choice cands Hi Hwf Hdi Hcd c v Hv1 Ec), Hm'. simpl; auto.
+      rewrite map_res_cons, (inv_choice cands Hi Hwf Hok Hdi Hcd c v Hv1 Ec), Hm'. simpl; auto.
   Qed.
 
   Lemma enc_dec : forall t, inv_ok t.
   Proof.
-    induction t using tmpl_ind'; intros Hwf Hdi p ds1 rest v r Hv Hd.
+    induction t using tmpl_ind'; intros Hwf Hok Hdi p ds1 rest v r Hv Hd.
     - (* leaf *) destruct ds1; [|discriminate Hv]. simpl in Hd. inv Hd. split; auto.
       rewrite enc_leaf, leaf_eqb_refl. auto.
     - (* dict *) destruct Hwf as [ND Hw]. apply all_P_Forall in Hw. simpl in Hdi. apply all_P_Forall in Hdi.
-      simpl in Hv. rewrite sdec_dict in Hd.
+      apply okq_forall_kvs in Hok. simpl in Hv. rewrite sdec_dict in Hd.
       destruct (trav_kvs sdec kvs (ds1 ++ rest)) as [[kvs' r']|] eqn:E; inv Hd.
-      destruct (inv_dict kvs ND kvs (incl_refl _) H Hw Hdi (fun k => p ++ [KName k]) _ _ _ _ Hv E) as (-> & He & Hk).
+      destruct (inv_dict kvs ND kvs (incl_refl _) H Hw Hok Hdi (fun k => p ++ [KName k]) _ _ _ _ Hv E) as (-> & He & Hk).
       split; auto. rewrite enc_tdict.
       replace (length kvs =? length kvs') with true.
       2:{ symmetry. apply Nat.eqb_eq. rewrite <- (map_length fst kvs), <- (map_length fst kvs'), Hk. auto. }
       replace (forallb (fun kv => has_key (fst kv) kvs') kvs) with true; auto.
       symmetry. apply forallb_forall. intros kv Hkv. apply has_key_in. rewrite Hk. apply in_map; auto.
     - (* object *) destruct Hwf as [ND Hw]. apply all_P_Forall in Hw. simpl in Hdi. apply all_P_Forall in Hdi.
-      simpl in Hv. rewrite sdec_obj in Hd.
+      apply okq_forall_kvs in Hok. simpl in Hv. rewrite sdec_obj in Hd.
       destruct (trav_kvs sdec kvs (ds1 ++ rest)) as [[kvs' r']|] eqn:E; inv Hd.
-      destruct (inv_kvs kvs H Hw Hdi (fun k => p ++ [KName k]) _ _ _ _ Hv E) as (-> & He & Hk).
+      destruct (inv_kvs kvs H Hw Hok Hdi (fun k => p ++ [KName k]) _ _ _ _ Hv E) as (-> & He & Hk).
       split; auto. rewrite enc_tobj, Nat.eqb_refl, (keys_eqb_same _ _ Hk). auto.
     - (* list *) simpl in Hwf. apply all_P_Forall in Hwf. simpl in Hdi. apply all_P_Forall in Hdi.
+      assert (Hok' : Forall okq ts) by (destruct Hok as [Hq|Hn]; [apply okq_forall; left; exact Hq | discriminate Hn]).
       simpl in Hv. rewrite sdec_list in Hd.
       destruct (trav_list sdec ts (ds1 ++ rest)) as [[ts' r']|] eqn:E; inv Hd.
-      destruct (inv_list ts H Hwf Hdi (fun i => p ++ [KIdx i]) 0 _ _ _ _ Hv E) as (-> & He & Hl).
+      destruct (inv_list ts H Hwf Hok' Hdi (fun i => p ++ [KIdx i]) 0 _ _ _ _ Hv E) as (-> & He & Hl).
       split; auto. rewrite enc_tlist. unfold lst. rewrite Hl, Nat.eqb_refl. auto.
     - (* oneof *) simpl in Hwf. apply all_P_Forall in Hwf. destruct Hdi as [Hcd Hdi]. apply all_P_Forall in Hdi.
-      simpl in Hv. rewrite sdec_oneof in Hd. rewrite enc_oneof. destruct (w (TOneOf cands a)) eqn:W.
+      apply okq_forall in Hok. simpl in Hv. rewrite sdec_oneof in Hd. rewrite enc_oneof. destruct (w (TOneOf cands a)) eqn:W.
       + destruct ds1 as [|x ds1]; simpl in Hv; try discriminate.
         apply andb_true_iff in Hv as [Hx Hn]. destruct ds1; [|discriminate Hn].
         destruct x as [cs| |]; simpl in Hx; try discriminate.
@@ -541,22 +563,22 @@ Section Enc.
         destruct cs as [|c [|c' cs]]; simpl in Hlen; try discriminate.
         simpl in Hall. rewrite andb_true_r in Hall. simpl in Hd.
         destruct (choice_of cdec w cands c) as [v0|] eqn:Ec; inv Hd. split; auto.
-        rewrite (inv_choice cands H Hwf Hdi (Hcd eq_refl) c v Hall Ec). auto.
+        rewrite (inv_choice cands H Hwf Hok Hdi (Hcd eq_refl) c v Hall Ec). auto.
       + destruct (trav_list sdec cands (ds1 ++ rest)) as [[cands' r']|] eqn:E; inv Hd.
-        destruct (inv_list cands H Hwf Hdi (fun i => p ++ [KName s_candidates; KIdx i]) 0 _ _ _ _ Hv E) as (-> & He & Hl).
+        destruct (inv_list cands H Hwf Hok Hdi (fun i => p ++ [KName s_candidates; KIdx i]) 0 _ _ _ _ Hv E) as (-> & He & Hl).
         split; auto. rewrite attrs_eqb_refl. unfold lst. rewrite Hl, Nat.eqb_refl. auto.
     - (* manyof *) simpl in Hwf. apply all_P_Forall in Hwf. destruct Hdi as [Hcd Hdi]. apply all_P_Forall in Hdi.
-      simpl in Hv. rewrite sdec_manyof in Hd. rewrite enc_manyof. destruct (w (TManyOf k cands d s a)) eqn:W.
+      apply okq_forall in Hok. simpl in Hv. rewrite sdec_manyof in Hd. rewrite enc_manyof. destruct (w (TManyOf k cands d s a)) eqn:W.
       + destruct ds1 as [|x ds1]; simpl in Hv; try discriminate.
         apply andb_true_iff in Hv as [Hx Hn]. destruct ds1; [|discriminate Hn].
         destruct x as [cs| |]; simpl in Hx; try discriminate.
         apply andb_true_iff in Hx as [Hx Hall]. apply andb_true_iff in Hx as [Hlen Hc].
         simpl in Hd. rewrite Hlen, Hc in Hd. simpl in Hd.
         destruct (map_res (choice_of cdec w cands) cs) as [vs|] eqn:Em; inv Hd. split; auto.
-        destruct (inv_choices cands H Hwf Hdi (Hcd eq_refl) cs vs Hall Em) as [Hm Hl].
+        destruct (inv_choices cands H Hwf Hok Hdi (Hcd eq_refl) cs vs Hall Em) as [Hm Hl].
         rewrite Hl, Hlen, Hm, Hc. auto.
       + destruct (trav_list sdec cands (ds1 ++ rest)) as [[cands' r']|] eqn:E; inv Hd.
-        destruct (inv_list cands H Hwf Hdi (fun i => p ++ [KName s_candidates; KIdx i]) 0 _ _ _ _ Hv E) as (-> & He & Hl).
+        destruct (inv_list cands H Hwf Hok Hdi (fun i => p ++ [KName s_candidates; KIdx i]) 0 _ _ _ _ Hv E) as (-> & He & Hl).
         split; auto. rewrite attrs_eqb_refl, Nat.eqb_refl. simpl. unfold lst. rewrite Hl, Nat.eqb_refl, He.
         rewrite !Bool.eqb_reflx. auto.
     - (* float *) simpl in Hv, Hd. simpl. destruct (w (TFloat lo hi a)) eqn:W.
@@ -573,21 +595,44 @@ Section Enc.
       + destruct ds1; [|discriminate Hv]. simpl in Hd. inv Hd. rewrite attrs_eqb_refl, Nat.eqb_refl. auto.
   Qed.
 
-  Lemma encode_decode : forall t d v, wf_t t -> distinguishable cdec w t ->
+  Lemma encode_decode_okq : forall t d v, wf_t t -> okq t -> distinguishable cdec w t ->
     valid (dna_spec w t) d = true -> sdecode cdec w t d = Ok v -> sencode cenc w q t v = Ok d.
   Proof.
-    intros t [ds] v Hwf Hdi Hv Hd. simpl in Hv. unfold sdecode in Hd. unfold sencode.
+    intros t [ds] v Hwf Hok Hdi Hv Hd. simpl in Hv. unfold sdecode in Hd. unfold sencode.
     destruct (sdec t ds) as [[v0 r]|] eqn:E; try discriminate.
     assert (E' : sdec t (ds ++ []) = Ok (v0, r)) by (rewrite app_nil_r; auto).
-    destruct (enc_dec t Hwf Hdi [] ds [] v0 r Hv E') as [-> He].
+    destruct (enc_dec t Hwf Hok Hdi [] ds [] v0 r Hv E') as [-> He].
     simpl in Hd. inv Hd. rewrite He. auto.
   Qed.
 End Enc.
 
-Lemma encode_sound : forall cdec cenc w q, no_hquirks q ->
+(* what encode accepts is decodable — whether or not the open finding is repaired *)
+Lemma encode_sound : forall cdec cenc w q,
   (forall ck v e, cenc ck v = Err e -> catchable e = true) ->
   (forall ck v s, cenc ck v = Ok s -> exists v', cdec ck s = Ok v' /\ veq v' v = true) ->
   forall t v ds, wf_t t -> enc cenc w q t v = Ok ds ->
   exists ds', (forall p, forallb2 valid_p (pts w p t) ds' = true) /\
               forall rest, exists v', sdec cdec w t (ds' ++ rest) = Ok (v', rest) /\ veq v' v = true.
-Proof. intros cdec cenc w q Hq He Hs t v ds Hwf. exact (enc_sound cdec cenc w q Hq He Hs t Hwf v ds). Qed.
+Proof. intros cdec cenc w q He Hs t v ds Hwf. exact (enc_sound cdec cenc w q He Hs t Hwf v ds). Qed.
+
+Lemma encode_decode : forall cdec cenc w q, no_hquirks q ->
+  (forall ck v e, cenc ck v = Err e -> catchable e = true) ->
+  (forall ck v s, cenc ck v = Ok s -> exists v', cdec ck s = Ok v' /\ veq v' v = true) ->
+  (forall ck s v, cdec ck s = Ok v -> cenc ck v = Ok s) ->
+  forall t d v, wf_t t -> distinguishable cdec w t ->
+  valid (dna_spec w t) d = true -> sdecode cdec w t d = Ok v -> sencode cenc w q t v = Ok d.
+Proof.
+  intros cdec cenc w q Hq He Hs Hd t d v Hwf Hdi. apply (encode_decode_okq cdec cenc w q He Hs Hd); auto. left; exact Hq.
+Qed.
+
+(* with the finding unrepaired: still true on templates without a list node *)
+Lemma encode_decode_partial : forall cdec cenc w q,
+  (forall ck v e, cenc ck v = Err e -> catchable e = true) ->
+  (forall ck v s, cenc ck v = Ok s -> exists v', cdec ck s = Ok v' /\ veq v' v = true) ->
+  (forall ck s v, cdec ck s = Ok v -> cenc ck v = Ok s) ->
+  forall t d v, avoids q t -> wf_t t -> distinguishable cdec w t ->
+  valid (dna_spec w t) d = true -> sdecode cdec w t d = Ok v -> sencode cenc w q t v = Ok d.
+Proof.
+  intros cdec cenc w q He Hs Hd t d v Ha Hwf Hdi. apply (encode_decode_okq cdec cenc w q He Hs Hd); auto.
+  unfold okq, avoids in *. destruct (q_list_dict q); [right; auto | left; auto].
+Qed.
